@@ -6,11 +6,15 @@ import mutants, registry, engine
 BEN = os.path.join(engine.VERIF, "benign")
 def run(props=None):
     res = {"ran": True, "false_alarms": [], "clean": [], "skipped": []}
-    for f in sorted(os.listdir(BEN)):
-        if not f.endswith(".patch"): continue
+    files = [os.path.join(BEN, f) for f in sorted(os.listdir(BEN)) if f.endswith(".patch")]
+    ag = os.path.join(BEN, "agents")
+    if os.path.isdir(ag):
+        files += [os.path.join(ag, f) for f in sorted(os.listdir(ag)) if f.endswith(".patch")]
+    for path in files:
+        f = os.path.relpath(path, BEN)
         d = mutants.scratch_copy("/repo")
         try:
-            ok, out = mutants.apply_patch(d, os.path.join(BEN, f))
+            ok, out = mutants.apply_patch(d, path)
             if not ok:
                 res["skipped"].append(f); continue
             built = mutants.build(d)
